@@ -103,6 +103,30 @@ Theorem C01_complete_then_needmore :
 Proof. exact read_many_prefix. Qed.
 Print Assumptions C01_complete_then_needmore.
 
+(* read_all with socket timeouts at arbitrary positions and the need-rekey test: it returns exactly
+   the next n bytes of the stream, or blocks, and NeedRekeyException is raised only when no byte of
+   the current read has been consumed (out = []), leaving the stream untouched *)
+Theorem C01_read_all_timeouts :
+  forall sock n out ck nr, ne_t sock ->
+    match read_all_t n out ck nr sock with
+    | RAok x s' => exists y, x = out ++ y /\ ftake n (sdata sock) = Some (y, sdata s') /\ ne_t s'
+    | RAeof => ftake n (sdata sock) = None
+    | RArekey s' => ck = true /\ nr = true /\ out = [] /\ sdata s' = sdata sock /\ ne_t s'
+    end.
+Proof. exact read_all_t_spec. Qed.
+Print Assumptions C01_read_all_timeouts.
+
+(* fragmentation with timeouts, re-key pending or not: the run loop (which notes NeedRekeyException
+   and keeps reading) delivers exactly the messages, result and state of reading the plain byte
+   stream: timeouts at any positions never lose, duplicate or reorder bytes *)
+Theorem C01_timeouts_lossless :
+  forall P fuel nr r s, ne_t s ->
+    let '(ps, evs, k, fi, rf, sf) := read_many_t P nr fuel r s in
+    fi <> FFuel -> forall fuel2, (fuel <= fuel2)%nat ->
+    read_many P (list Z) ftake fuel2 r (sdata s) = (ps, evs, fi, rf, sdata sf).
+Proof. exact timeouts_lossless. Qed.
+Print Assumptions C01_timeouts_lossless.
+
 (* non-vacuity: the laws are satisfiable, and a concrete keyed pair is in sync in each mode *)
 Example C01_laws_satisfiable : prims_ok idP (fun _ _ _ => True) (fun _ _ => True).
 Proof. exact idP_ok. Qed.
